@@ -251,6 +251,16 @@ func (t *Thread) Yield(args []Value) ([]Value, error) {
 // running.
 func (t *Thread) end(args []Value, err error, exception interface{}) {
 	caller := t.caller
+	// Pending to-be-closed values are closed first, while the thread is still
+	// running and no lock is held: __close handlers are arbitrary Lua code and
+	// may resume or close coroutines (which takes the locks below).  If the
+	// thread is ending because its context was killed there are no resources to
+	// run them, so they are discarded (as CallContext does).
+	if _, killed := exception.(ContextTerminationError); killed {
+		t.closeStack.truncate(0)
+	} else if termination := t.cleanupCloseStackAtEnd(&err); termination != nil {
+		exception = termination
+	}
 	t.mux.Lock()
 	caller.mux.Lock()
 	defer t.mux.Unlock()
@@ -264,10 +274,27 @@ func (t *Thread) end(args []Value, err error, exception interface{}) {
 	close(t.resumeCh)
 	t.status = ThreadDead
 	t.caller = nil
-	err = t.cleanupCloseStack(nil, 0, err) // TODO: not nil
 	t.closeErr = err
 	t.ReleaseBytes(2 << 10) // The goroutine will terminate after this
 	caller.sendResumeValues(args, err, exception)
+}
+
+// Runs the pending __close handlers of a thread that is ending, updating
+// *err.  If a handler exhausts the resources of the context, the rest of the
+// close stack is discarded and the termination is returned so that it can be
+// propagated to the caller.
+func (t *Thread) cleanupCloseStackAtEnd(err *error) (termination interface{}) {
+	defer func() {
+		if r := recover(); r != nil {
+			if _, ok := r.(ContextTerminationError); !ok {
+				panic(r)
+			}
+			t.closeStack.truncate(0)
+			termination = r
+		}
+	}()
+	*err = t.cleanupCloseStack(nil, 0, *err) // TODO: not nil
+	return nil
 }
 
 func (t *Thread) call(c Callable, args []Value, next Cont) error {
